@@ -252,6 +252,22 @@ Definition recode (dict_word : N -> N -> list N) (transforms : list (list N * N 
   | _, _, _ => OutOfFuel
   end.
 
+(* ---- src/enc/stride_eval.rs StrideEval (run by LogMetaBlock when stride_detection_quality > 2):
+        the score array holds 8 entries per literal block type seen.  It starts with 32 entries;
+        update_block_type (one call per BlockSwitchLiteral pushed, the first included) increments
+        cur_score_epoch and doubles the array when `cur_score_epoch * 8 + 7 >= len`; choose_stride
+        asserts a bound before reading score[(1 + index) * 8 ..][..8] for index < cur_score_epoch. ---- *)
+Definition score_grow (epoch len : N) : N := if len <=? epoch * 8 + 7 then len * 2 else len.
+Fixpoint score_len (n : nat) : N :=
+  match n with O => 32 | S k => score_grow (N.of_nat (S k)) (score_len k) end.
+Definition choose_stride_ok (n : nat) : bool :=
+  (N.of_nat n <? score_len n) && (N.of_nat n * 8 + 7 <? score_len n).
+(* as found: assert!(len > (n << 3) + 7 + 8) *)
+Definition choose_stride_ok_unfixed (n : nat) : bool :=
+  (N.of_nat n <? score_len n) && (N.of_nat n * 8 + 7 + 8 <? score_len n).
+Definition count_literal_switches (ir : list ir_cmd) : nat :=
+  length (filter (fun c => match c with IrBlockSwitchLiteral _ _ => true | _ => false end) ir).
+
 (* RecoderState at the first meta-block.  encode.rs creates RecoderState::new() (0); the
    repaired set_custom_dictionary additionally sets it to the number of dictionary bytes it
    placed in front of the input (see model/Dict.v for that number). *)
